@@ -59,7 +59,7 @@ func CheckC11(tier string, seed uint64, rep *core.Reporter) (*core.Evidence, err
 			}
 		}
 		res, err := w.RunShards(w.Runsim, "c11", bseed, runs, 14, nil, nil, 40*time.Minute)
-		if err == nil && b == 0 {
+		if err == nil && b == 0 && len(res.Violations) == 0 {
 			detHash, err = w.DeterminismProbe(w.Runsim, "c11", bseed, 300, nil)
 		}
 		rejected += w.Rejected
